@@ -31,6 +31,7 @@
 using namespace drv;
 using namespace c3;
 
+struct Todo { std::string first; MutV second; Tag tag; Todo(const std::string &f, const MutV &s, const Tag &t) : first(f), second(s), tag(t) {} };
 struct Ctr { uint64_t runs, asserted, free_acc, free_rej, viol; Ctr() : runs(0), asserted(0), free_acc(0), free_rej(0), viol(0) {} };
 
 static RunOut run_cell(Cell &c, const std::vector<std::string> &proof, uint64_t seed, const Mut *m, bool do_reset = true)
@@ -118,7 +119,7 @@ int main(int argc, char **argv)
 		}
 		cells_done++;
 		std::set<std::string> distinct;
-		auto judge = [&](const std::string &pos, const std::string &mname, const std::string &cls, Expect ex, RunOut o, const std::string &shown) {
+		auto judge = [&](const Tag &tag, const std::string &pos, const std::string &mname, const std::string &cls, Expect ex, RunOut o, const std::string &shown) {
 			T.runs++;
 			// symmetric protocols (coin flip): the party that *receives* the mutated line is the one that must refuse
 			if (c->symmetric && pos.substr(0, 3) == "vp.") o.accept = o.p_ok, o.v_other = o.p_other;
@@ -139,7 +140,11 @@ int main(int argc, char **argv)
 			R.ok(fresh);
 			if (o.accept)
 			{
+				// root-cause specific keys for positions whose handling is a distinct library mechanism (see Tag::weak)
 				std::string key = "c05/" + c->family + "/" + pos + "/" + cls + "/" + mname;
+				if (cls == "nonmember" && mname == "p-v" && tag.weak.substr(0, 6) == "order2") key = "c05/" + tag.weak + "/" + c->family + "/" + pos;
+				if (cls == "range" && mname == "v+p" && tag.weak == "norange") key = "c05/element-range-unchecked/" + c->family + "/" + pos;
+				if (mname == "-v" && tag.weak == "negexp") key = "c05/negated-exponent/" + c->family + "/" + pos;
 				T.viol++;
 				if (reported.insert(key + caseid).second)
 					R.viol(key, "verifier ACCEPTED after mutation " + mname + " of " + pos + " (" + (ex == X_REFUSE ? "equivalent value outside the prescribed range must be refused" : "non-equivalent value")
@@ -155,7 +160,7 @@ int main(int argc, char **argv)
 				const Tag &t = tg[dir][idx];
 				positions++;
 				std::string posname = std::string(dir == 0 ? "pv." : "vp.") + t.what;
-				std::vector<std::pair<std::string, MutV> > todo;   // (position label, mutation with full line text)
+				std::vector<Todo> todo;   // (position label, mutation with full line text, tag of the position / token)
 				if (t.k == K_STRUCT)
 				{
 					Toks tk(L[idx]);
@@ -177,7 +182,7 @@ int main(int argc, char **argv)
 							t2.tok[j] = mv[m].text;
 							MutV x = mv[m];
 							x.text = t2.join();
-							todo.push_back(std::make_pair(posname + "." + tt.what, x));
+							todo.push_back(Todo(posname + "." + tt.what, x, tt));
 						}
 					}
 				}
@@ -185,20 +190,20 @@ int main(int argc, char **argv)
 				{
 					std::vector<MutV> mv;
 					catalogue_text(t, L[idx], mv);
-					for (size_t m = 0; m < mv.size(); m++) todo.push_back(std::make_pair(posname, mv[m]));
+					for (size_t m = 0; m < mv.size(); m++) todo.push_back(Todo(posname, mv[m], t));
 				}
 				else
 				{
 					std::vector<MutV> mv;
 					catalogue(t, L[idx], c->p, c->q, mv);
-					for (size_t m = 0; m < mv.size(); m++) todo.push_back(std::make_pair(posname, mv[m]));
+					for (size_t m = 0; m < mv.size(); m++) todo.push_back(Todo(posname, mv[m], t));
 				}
 				for (size_t m = 0; m < todo.size(); m++)
 				{
 					Mut mu;
 					mu.op = M_REPLACE, mu.dir = dir, mu.idx = idx, mu.text = todo[m].second.text;
 					RunOut o = run_cell(*c, proof, seed, &mu);
-					judge(todo[m].first, todo[m].second.name, todo[m].second.cls, todo[m].second.ex, o, str(dir) + ":" + str(idx) + ":" + mu.text);
+					judge(todo[m].tag, todo[m].first, todo[m].second.name, todo[m].second.cls, todo[m].second.ex, o, str(dir) + ":" + str(idx) + ":" + mu.text);
 				}
 				// whole-line mutations
 				{
@@ -207,7 +212,7 @@ int main(int argc, char **argv)
 					if (!L[idx].empty())
 					{
 						RunOut o = run_cell(*c, proof, seed, &mu);
-						judge(posname, "empty-line", "nonequiv", t.covered ? X_REJECT : X_FREE, o, str(dir) + ":" + str(idx) + ":<empty>");
+						judge(t, posname, "empty-line", "nonequiv", t.covered ? X_REJECT : X_FREE, o, str(dir) + ":" + str(idx) + ":<empty>");
 					}
 				}
 				if (idx + 1 < L.size())
@@ -219,12 +224,12 @@ int main(int argc, char **argv)
 						Mut mu;
 						mu.op = M_SWAP_NEXT, mu.dir = dir, mu.idx = idx;
 						RunOut o = run_cell(*c, proof, seed, &mu);
-						judge(posname, "swap-with-next", "nonequiv", ex, o, str(dir) + ":" + str(idx) + ":<swap>");
+						judge(t, posname, "swap-with-next", "nonequiv", ex, o, str(dir) + ":" + str(idx) + ":<swap>");
 					}
 					Mut mu;
 					mu.op = M_TRUNC_AFTER, mu.dir = dir, mu.idx = idx;
 					RunOut o = run_cell(*c, proof, seed, &mu);
-					judge(posname, "truncate-after", "nonequiv", X_REJECT, o, str(dir) + ":" + str(idx) + ":<trunc>");
+					judge(t, posname, "truncate-after", "nonequiv", X_REJECT, o, str(dir) + ":" + str(idx) + ":<trunc>");
 				}
 			}
 		}
@@ -244,7 +249,7 @@ int main(int argc, char **argv)
 					std::vector<PubIn> P;
 					c->pubins(H, P);
 					PubIn &in = P[pi];
-					Z orig(in.target);
+					Z orig = in.get();
 					const Z &pp = in.tag.P ? *in.tag.P : c->p;
 					std::vector<std::pair<std::string, Z> > vals;
 					{ Z w; mpz_add_ui(w, orig, 1); vals.push_back(std::make_pair("v+1", w)); }
@@ -257,12 +262,11 @@ int main(int argc, char **argv)
 					if (in.tag.k == K_EXACT) ex = mpz_cmp(orig, vals[k].second) ? (in.tag.covered ? X_REJECT : X_FREE) : X_SKIP;
 					if (ex == X_SKIP) continue;
 					if (ex == X_REFUSE) ex = X_FREE;     // the refusal clause speaks about received values, not about what the caller passes
-					mpz_set(in.target, vals[k].second);
 					RunOut o;
-					try { o = run_cell(*c, proof, seed, NULL, false); }
-					catch (...) { mpz_set(in.target, orig); throw; }
-					mpz_set(in.target, orig);
-					judge("in." + in.name, vals[k].first, cls, ex, o, "in:" + str(pi) + ":" + vals[k].second.str());
+					try { in.set(vals[k].second); o = run_cell(*c, proof, seed, NULL, false); }
+					catch (...) { in.undo(orig); throw; }
+					in.undo(orig);
+					judge(in.tag, "in." + in.name, vals[k].first, cls, ex, o, "in:" + str(pi) + ":" + vals[k].second.str());
 				}
 			}
 			// the statement is restored: the unmodified proof must be accepted again
